@@ -39,7 +39,8 @@ BOUNDS = {
              "matrix and complex visibilities ALL symbolic reals (cos/sin abstracted, see STUBS); one merged path covers every sign pattern of the matrix; "
              "plus 3 concrete kernel geometries (3-4 pixels incl. a repeated pixel, zero / repeated / nearly-equal / non-integer baselines) with native cos/sin, tolerance 1e-9. "
              "TransformerDFT class: every mask (>=1 unmasked pixel) of shape 2x2 by forking, preload on/off, image (slim- and native-stored Array2D), "
-             "signed mapping matrix (2 columns), directly constructed and arithmetic-derived Visibilities symbolic; geometry either symbolic "
+             "signed mapping matrix (2 columns), directly constructed and arithmetic-derived Visibilities symbolic (plus the documented [[re,im],..] float forms - C-ordered, "
+             "transposed / non-contiguous, nested lists, list of complex - with concrete values added to the symbolic ones); geometry either symbolic "
              "(origin and K=2 baselines symbolic, pixel scales (0.5, 2.0); exact obligations) or concrete (4 geometries with anisotropic scales, "
              "off-centre origin, zero, repeated and nearly-equal consecutive baselines (relative difference 2^-20 at |u| ~ 1e6); native cos/sin against an independent complex-exponential reference, tolerance 1e-9, "
              "symbolic values bounded by 1000 in magnitude). Every class case also transforms an image whose own mask has the same pattern but another "
@@ -64,7 +65,8 @@ OUTSIDE = [
     "non-polynomial; a fixed set of dyadic / anisotropic scale pairs is used instead - the scalar geometry is C02's subject)",
     "more than 8 image pixels (6 with symbolic geometry), 5 baselines, 4 linear parameters",
     "float64 rounding of the sums (exact real arithmetic; the concrete-geometry obligations carry a 1e-9 relative tolerance)",
-    "Visibilities built from [K,2] float arrays or .fits files (input conversion, not the transform)",
+    "Visibilities loaded from .fits files; the [K,2] float / list input forms are exercised with concrete values only (object arrays of proxies "
+    "do not take the float-dtype branch), added to symbolic visibilities by structure arithmetic",
 ]
 STUBS = [
     "pylops: empty stand-in LinearOperator base class on sys.path (stubs_c13), as the property prescribes",
@@ -794,6 +796,18 @@ def body_class(inp, H, W, K, S, preload):
         im3 = hx.attempt(lambda: t.image_from(visibilities=vs)) if not isinstance(vs, hx.Raised) else vs
         A["image_of_scaled"] = hx.attempt(lambda: im3.slim.array) if not isinstance(im3, hx.Raised) else im3
         E["image_of_scaled"] = ref_adjoint(C, Sn, 2.0 * vb[:, 0], 2.0 * vb[:, 1])
+        # documented input forms of the visibilities ([[re, im], ...] float array in C order / as a transposed non-contiguous
+        # array / as nested lists / list of complex): concrete values combined with the symbolic visibilities by structure arithmetic
+        F = np.array([[k + 0.5, -(k + 1) * 0.25] for k in range(K)], dtype=float)
+        forms = {"float_c": F.copy(), "float_transposed": np.array([F[:, 0], F[:, 1]]).T, "nested_list": F.tolist(),
+                 "complex_list": [complex(a, b) for a, b in F]}
+        e_form = ref_adjoint(C, Sn, F[:, 0] + va[:, 0], F[:, 1] + va[:, 1])
+        for fname, form in forms.items():
+            vf = hx.attempt(lambda: aa.Visibilities(visibilities=form))
+            vsum = hx.attempt(lambda: vf + va_c) if not isinstance(vf, hx.Raised) else vf
+            imf = hx.attempt(lambda: t.image_from(visibilities=vsum)) if not isinstance(vsum, hx.Raised) else vsum
+            A["image_of_form." + fname] = hx.attempt(lambda: imf.slim.array) if not isinstance(imf, hx.Raised) else imf
+            E["image_of_form." + fname] = e_form
         # mapping matrix: the operator applied to every column
         T = hx.attempt(lambda: t.transform_mapping_matrix(mapping_matrix=M))
         A["tmm.re"], A["tmm.im"] = _split(T)
